@@ -65,7 +65,7 @@ impl Plan {
 }
 
 /// structural giants appended after the corpus bases (see giants.rs)
-pub const GIANT_BASES: u64 = 8;
+pub const GIANT_BASES: u64 = 9;
 
 pub const MEM_FIXED: u64 = 64 * 1024 * 1024;
 pub const MEM_PER_BYTE: u64 = 8192;
@@ -110,10 +110,10 @@ pub fn inputs_of_base(plan: &Plan, b: u64, corpus: &[(String, Vec<u8>)]) -> Vec<
     let mut out: Vec<Input> = Vec::new();
     // the untouched base itself
     out.push(Input { operator: "wellformed".into(), label: format!("{}: unmodified", base.name), bytes: base.bytes.clone() });
-    if plan.mode == Mode::Digest && b < plan.generated_bases {
-        // cross-profile comparison: well-formed sprites whose sizes / counts exceed 255 and 65535
+    if (plan.mode == Mode::Digest || plan.mode == Mode::Walk) && b < plan.generated_bases {
+        // cross-profile comparison / accessor walk: well-formed sprites whose sizes / counts exceed 255 and 65535
         // (arithmetic that only wraps for large but valid values)
-        for k in 0..40u64 {
+        for k in 0..if plan.mode == Mode::Digest { 40u64 } else { 8 } {
             let mut r = Rng::derive(plan.seed, "digest-big", b * 64 + k);
             let mut cfg = crate::gen::GenCfg::small();
             cfg.max_w = 24;
@@ -141,6 +141,7 @@ pub fn inputs_of_base(plan: &Plan, b: u64, corpus: &[(String, Vec<u8>)]) -> Vec<
         Mode::Mem => {
             // every size / count / index field inflated one at a time to each larger boundary value
             out.extend(hostile::field_inputs(&base, true));
+            out.extend(hostile::pair_field_inputs(&base));
         }
         _ => {
             out.extend(hostile::field_inputs(&base, false));
